@@ -340,6 +340,14 @@ Section WFQ.
       destruct (filter (fun p => Z.eqb (wcls p) c) (insys S s)); [destruct Hf|cbn; lia].
   Qed.
 
+  Lemma wfq_put_empty_others nw st p st' F c :
+    active st = [] -> wfq_put cfg nw st p = Some (st', F) -> c <> wcls p -> fin st' c = 0.
+  Proof.
+    intros Ea H Nc. unfold wfq_put in H. fold (wcls p) in H. destruct (zlookup _ _); [|discriminate].
+    rewrite Ea in H. cbn [andb] in H. apply Some_pair_inj in H as [-> _]. cbn [fin]. unfold qupd.
+    destruct (Z.eqb_spec c (wcls p)); [contradiction|reflexivity].
+  Qed.
+
   Lemma wfq_put_last nw st p st' F : wfq_put cfg nw st p = Some (st', F) -> last_time st' = nw.
   Proof.
     unfold wfq_put. destruct (zlookup _ _); [|discriminate].
